@@ -60,6 +60,8 @@ struct Run {
     /// run delta through `bash -c <script> <delta> <args>` (script: `exec "$0" "$@" ...`), e.g.
     /// to hand it a process substitution
     via_bash: Option<String>,
+    /// send SIGINT to delta (to delta alone) as soon as this file exists
+    sigint_when: Option<PathBuf>,
 }
 
 struct Out {
@@ -96,6 +98,16 @@ fn run(w: &World, r: &Run) -> std::io::Result<Out> {
     }
     cmd.current_dir(&w.dir);
     cmd.stdin(if r.stdin.is_some() { Stdio::piped() } else { Stdio::null() }).stdout(Stdio::piped()).stderr(Stdio::piped());
+    if r.sigint_when.is_some() {
+        // (an ignored SIGINT would be inherited: start from the default disposition, as under a terminal)
+        use std::os::unix::process::CommandExt;
+        unsafe {
+            cmd.pre_exec(|| {
+                libc::signal(libc::SIGINT, libc::SIG_DFL);
+                Ok(())
+            });
+        }
+    }
     let mut child = cmd.spawn()?;
     let writer = r.stdin.clone().map(|input| {
         let mut si = child.stdin.take().unwrap();
@@ -135,7 +147,14 @@ fn run(w: &World, r: &Run) -> std::io::Result<Out> {
     let mut timed_out = false;
     let mut blocked_in: Option<String> = None;
     let mut stamp_at_exit = false;
+    let mut interrupted = false;
     let status = loop {
+        if let Some(p) = &r.sigint_when {
+            if !interrupted && p.exists() {
+                interrupted = true;
+                unsafe { libc::kill(child.id() as i32, libc::SIGINT) };
+            }
+        }
         if let Some(st) = child.try_wait()? {
             stamp_at_exit = r.stamp.as_ref().map(|p| p.exists()).unwrap_or(false);
             break st;
@@ -462,6 +481,21 @@ fn s_pager(t: &mut Tape, sc: &mut Sc) -> Verdict {
         let got = std::fs::read(&stdin_file).unwrap_or_default();
         if !reference.stdout.starts_with(&got) {
             return sc.fail("pager-write-fault:delivered-bytes-differ", format!("write call {} of {} fails: what the pager received is not a prefix of the fault-free output", n, wn), json!({"fault_at_write": n}));
+        }
+    }
+    // Ctrl-C while the pager is up
+    {
+        let (script, stdin_file, stamp, _r) = pager_script(sc.w, name, json!({"delay_ms": 250}));
+        let mut e = env.clone();
+        e.retain(|(k, _)| k != "STUBTOOL_SCRIPT");
+        e.push(("STUBTOOL_SCRIPT".to_string(), script.display().to_string()));
+        let o = match sc.run(&Run { args: args.clone(), env: e, stdin: Some(input.clone()), stamp: Some(stamp.clone()), sigint_when: Some(stdin_file), ..Default::default() }) {
+            Ok(o) => o,
+            Err(v) => return v,
+        };
+        sc.faults += 1;
+        if o.status != Some(0) || !o.stamp_at_exit {
+            return sc.fail("pager-interrupt:exited-before-pager", format!("SIGINT arrives while the pager `{}` is showing the text (it exits 250 ms later): delta ended with status {:?} signal {:?}, {} the pager", name, o.status, o.signal, if o.stamp_at_exit { "after" } else { "before" }), json!({"sigint": "when the pager has read everything"}));
         }
     }
     // the pager really quits after k lines
@@ -808,6 +842,22 @@ fn s_info(t: &mut Tape, sc: &mut Sc) -> Verdict {
         sc.faults += 1;
         if let Err((sig, msg)) = quiet(&o) {
             return sc.fail(&format!("info-write-fault:{}:{}", cargs.last().unwrap().trim_start_matches('-'), sig), format!("`delta {}`: write call {} of {} ({}) fails with EPIPE: {}", args.join(" "), n, wn, if pager { "pipe to the pager" } else { "stdout" }, msg), json!({"fault_at_write": n, "writes": wn}));
+        }
+    }
+    if pager {
+        // Ctrl-C while the pager is up (the terminal sends SIGINT to delta as well): delta must still
+        // be there when the pager exits - "does not exit before the pager does"
+        let (script, stdin_file, stamp, _r) = pager_script(sc.w, "less", json!({"delay_ms": 250}));
+        let mut e = env.clone();
+        e.retain(|(k, _)| k != "STUBTOOL_SCRIPT");
+        e.push(("STUBTOOL_SCRIPT".to_string(), script.display().to_string()));
+        let o = match sc.run(&Run { args: args.clone(), env: e, stdin: stdin.clone(), stamp: Some(stamp), sigint_when: Some(stdin_file), ..Default::default() }) {
+            Ok(o) => o,
+            Err(v) => return v,
+        };
+        sc.faults += 1;
+        if o.status != Some(0) || !o.stamp_at_exit {
+            return sc.fail(&format!("info-interrupt:{}:exited-before-pager", cargs.last().unwrap().trim_start_matches('-')), format!("`delta {}`: SIGINT arrives while the pager is showing the text (it exits 250 ms later): delta ended with status {:?} signal {:?}, {} the pager", args.join(" "), o.status, o.signal, if o.stamp_at_exit { "after" } else { "before" }), json!({"sigint": "when the pager has read everything"}));
         }
     }
     if !pager {
